@@ -108,8 +108,14 @@ PROPS['C02'] = dict(
           'removal keeps the order of the others. Tied to the code by differential runs (kill the connection at every I/O '
           'index, 2-5 consecutive resumes, all ack orders) and a wire monitor comparing every retransmission with the '
           'retained bytes.',
-    note='Trusted: Coq kernel, model, extraction, harness. No axioms. The wire-level statement (exactly once per resumed '
-         'connection when drained) is checked by the trace monitor on implementation traces, not proved.')
+    note='Trusted: Coq kernel, model, extraction, harness. No axioms. The wire-level statement is now a theorem too '
+         '(Owed.v, Replay.v): a connect() answered with session present leaves the queues as compact(arm_replay(o)) '
+         '(C02_resumed_connect_keeps_queues); what they owe the wire is replay_bytes(o) - every owed acknowledgement, every pending '
+         'PUBREL, every retained packet once, in queue order, retained packets with DUP set and otherwise byte for byte '
+         '(C02_resumed_connect_owes_replay); the drain that follows puts exactly these bytes on the wire, on a behaving transport '
+         '(C02_replay_on_wire) and on ANY transport that lets the drain end, however it cuts the writes '
+         '(C02_replay_on_wire_any_transport); C02_replay_example / C02_replay_hyps_met compute a case with all three queues '
+         'non-empty. That the broker then answers and the handles complete is part of C16.')
 PROPS['C03'] = dict(
     sess=[('sess_c03', 300, 4000)],
     events='w', state=['ret', 'rel', 'conn', 'gen', 'h', 'quota'],
@@ -122,7 +128,9 @@ PROPS['C03'] = dict(
           'replay rewinds every owed PUBREL once per connection. Tied to the code by differential runs over concurrent QoS 2 '
           'exchanges with all PUBREC/PUBCOMP orders and resumed reconnects, and a wire monitor.',
     note='Trusted: Coq kernel, model, extraction, harness. No axioms. The order clause was false on the unchanged tree '
-         '(swap_remove); repaired by fix 927b0b3.')
+         '(swap_remove); repaired by fix 927b0b3. On the wire (Replay.v): after a resumed connect the drain writes every pending '
+         'PUBREL exactly once, in release-list (= PUBREC) order, after the owed acknowledgements and before the retained publishes, '
+         'on any transport (C03_replay_layout, C03_pubrels_replayed_in_order).')
 PROPS['C05'] = dict(
     sess=[('sess_c05', 400, 5000)],
     events='w', state=['sp', 'gen', 'ret', 'rel', 'srv', 'h', 'cid', 'conn', 'ev', 'pid'],
@@ -335,9 +343,13 @@ PROPS['C15'] = dict(
           'reader hook (same stream, generated fragment lists) and by twin runs: the same program and inbound stream executed with '
           'whole and with randomly fragmented reads and writes (1, 2, 3, 5 bytes) on the implementation and on the model, comparing '
           'operation results, delivered messages and the outbound byte stream.',
-    note='Partial: inbound framing is proved for whole executions of the machine; the equality of results and of the outbound '
-         'byte stream of two whole executions under different write fragmentations is checked on twin runs, proved for the write '
-         'arithmetic. '
+    note='Inbound framing is proved for whole executions of the machine. Outbound (Owed.v): `owed`, a function of the queues '
+         'alone, is what they still owe the wire; ONE engine step on ANY transport, whatever part of the packet it accepts, moves '
+         'bytes from the front of owed to the end of the wire and changes nothing else (C15_engine_step_conserves: '
+         'wire\' ++ owed\' = wire ++ owed); so a drain that comes to its end has written exactly owed for EVERY script of partial '
+         'writes (C15_drain_writes_owed_any_fragmentation) - the outbound byte stream is a function of the queues, not of the '
+         'fragmentation. Partial only in that the equality of the RESULTS of two whole programs under different fragmentations '
+         '(operations interleaved with inbound traffic and time) is checked on twin runs, not proved. '
          'Trusted: Coq kernel, model, extraction, harness, reader hook. No axioms.')
 
 PROPS['C13'] = dict(
@@ -392,7 +404,7 @@ PROPS['C16'] = dict(
           'polls - must end live with no owed acknowledgement, no pending PUBREL, a publish-quiescent session and no pending handle; a '
           'poll that returns without a message must have made wire progress; an operation performing 50000 I/O calls (model: fuel) is '
           'reported as spinning.',
-    note='Partial: termination of the engine loops is a theorem (strictly decreasing measure, no assumption on the transport); drive() sending everything queued on a behaving transport is a theorem (no broker size limit, no PINGREQ due), so is poll() handing an arrived packet to the session and a PUBACK completing its publish in one poll (no PINGREQ due); that the answers to an arbitrary backlog (QoS 2, subscriptions, replays after reconnect) complete every handle within a bounded number of polls is a check over generated histories. '
+    note='Partial: termination of the engine loops is a theorem (strictly decreasing measure, no assumption on the transport); drive() sending everything queued on a behaving transport is a theorem (no broker size limit, no PINGREQ due), and what it writes is exactly what the queues owed (C16_drive_writes_owed); so is poll() handing an arrived packet to the session and a PUBACK completing its publish in one poll (no PINGREQ due); that the answers to an arbitrary backlog (QoS 2, subscriptions, replays after reconnect) complete every handle within a bounded number of polls is a check over generated histories. '
          'Trusted: Coq kernel, model, extraction, harness with its healing action and automatic broker. No axioms. '
          'Known finding K12 (arena too full to reconnect) blocks the drain and is reported as KNOWN-FINDING.')
 
